@@ -138,7 +138,8 @@ def replay_decoder(ctx, g, variant):
 
 def run(ctx):
     fs = forms(ctx.tier)
-    K = dict(Bnd=M.BND, Forms=frozenset(fs), Preambles=frozenset({(), ("x", "d", "d"), ("x", "d", "d", "b")}), MaxChunk=3 if ctx.tier == "quick" else 4,
+    K = dict(Bnd=M.BND, Forms=frozenset(fs), Preambles=frozenset({(), ("x", "d", "d"), ("x", "d", "d", "b")}),
+             Epilogues=frozenset({("r", "n")}) if ctx.tier == "quick" else frozenset({("r", "n"), ()}), MaxChunk=3 if ctx.tier == "quick" else 4,
              Limits=frozenset({M.Rec(parts=M.UNL, mem=M.UNL)}), HoldFix=True, OpenFix=True, PreFix=PREFIX)
     ctx.bounds = {"forms": len(fs), "MaxChunk": K["MaxChunk"], "content_alphabet": "r n d b x (s in thorough)", "max_content": 3}
     ctx.rule = ("decoder level: every edge of the TLC graph (all chunkings with chunks <= MaxChunk symbols) executed once on a real "
@@ -162,6 +163,15 @@ def run(ctx):
     if wres.violated != "Exact":
         raise common.MachineryError("witness failed: PreFix=FALSE does not violate Exact (%s)" % wres.violated)
     ctx.notes.append("witness: the original preamble rule (PreFix=FALSE) violates Exact after %d states" % wres.distinct)
+    # what may follow the close-delimiter: nothing at all (RFC 2046: its line break belongs to the optional epilogue), transport padding,
+    # epilogue text - on a subset of the forms (the main model of the quick tier has the CRLF every client sends)
+    KE = dict(K, Forms=frozenset(fs[:80]), Preambles=frozenset({()}), Epilogues=frozenset(EPILOGUES[1:]))
+    tlc.write_mc(wd, "MC_MultipartEpi", "Multipart", constants=KE,
+                 cfg_lines=["SPECIFICATION Spec", "CHECK_DEADLOCK FALSE", "INVARIANT PrefixOK", "INVARIANT Exact"])
+    eres = tlc.run_tlc(wd, "MC_MultipartEpi", coverage=False, heap="10g")
+    ctx.add_tlc("Multipart(epilogues)", eres, {"forms": 80, "epilogues": [list(e) for e in EPILOGUES[1:]]})
+    if eres.violated:
+        raise common.MachineryError("Multipart.tla with epilogue variants: " + tlc.describe(eres))
     g = graph.Graph.load(res.dot)
     n = replay_decoder(ctx, g, variant=ctx.seed % 3)
     ctx.bounds["edges_replayed"] = n
@@ -178,7 +188,7 @@ def run(ctx):
             variant = k % 4
             bm = bmaps[(k // 4) % 4]
             boundary = M.boundary_bytes(M.BND, bm)
-            syms = body_symbols(f, pre)
+            syms = body_symbols(f, pre, EPILOGUES[(k // 2) % len(EPILOGUES)] if k % 2 else EPILOGUES[0])
             hv = (k // 3) % 3
             body = M.conc_seq(syms, variant, bm, hv)
             want = M.expected_items(f, variant, bm, hv=hv)
@@ -204,12 +214,15 @@ def run(ctx):
     ctx.sample({"form": [dict(p) for p in fs[40]], "body": M.conc_seq(body_symbols(fs[40], ()), 0).decode("latin-1")})
 
 
-def body_symbols(f, pre):
+EPILOGUES = [("r", "n"), (), ("s", "r", "n"), ("r", "n", "x"), ("s",)]
+
+
+def body_symbols(f, pre, ep=("r", "n")):
     out = list(pre) + (["r", "n"] if pre else [])
     for p in f:
         out += ["d", "d"] + list(M.BND) + ["r", "n"] + (["h", "h"] if p["kind"] == "field" else ["g", "g", "g"]) + ["r", "n", "r", "n"] + \
             list(p["content"]) + ["r", "n"]
-    return out + ["d", "d"] + list(M.BND) + ["d", "d", "r", "n"]
+    return out + ["d", "d"] + list(M.BND) + ["d", "d"] + list(ep)
 
 
 if __name__ == "__main__":
